@@ -33,8 +33,8 @@ META = {
                   "arguments, not instrumented.",
     "shards": {"quick": 2, "thorough": 16},
     "budget_s": {"quick": 110, "thorough": 300},
-    "min_evals": {"quick": 2500, "thorough": 40000},
-    "min_nontrivial": {"quick": 150, "thorough": 1500},
+    "min_evals": {"quick": 1000, "thorough": 6000},
+    "min_nontrivial": {"quick": 100, "thorough": 600},
     "deciding": ["math.value", "math.iface", "math.grad", "math.contract"],
     "rule": "case = (recipe, generated argument arrays); one case is evaluated in 4 interfaces (+ mixed pairs, + 3 AD gradients); distinct = distinct "
             "(recipe, argument bytes); non-trivial = some tensor argument has >= 2 elements",
